@@ -84,6 +84,13 @@ func (ex *Exec) instr(b *ssa.BasicBlock, in ssa.Instruction) {
 		ex.set(in, refVal(c.fieldAddr(base.T, pt.Elem(), in.Field), in.Type()))
 	case *ssa.Index:
 		x := ex.val(in.X)
+		if isString(in.X.Type()) {
+			i := ex.idx64(ex.val(in.Index))
+			ex.addObl("bounds", "", r, and(app("bvsle", bvLit(64, 0), i), app("bvslt", i, x.Len)), in.Pos(),
+				"index out of range: "+ex.v.srcLine(in.Pos()), true)
+			ex.set(in, c.sliceElem(x, i))
+			return
+		}
 		at := in.X.Type().Underlying().(*types.Array)
 		if k, ok := in.Index.(*ssa.Const); ok {
 			i := int(k.Int64())
